@@ -6,7 +6,9 @@ Driver for C14.  One op per generated transaction:
 `case auth=<name> ts=<int> chain=<hex32> fee=<nat> rules=<base,kr,vr,ka,va,kw,vw> a=<payload>:<compute>:<key+key|-> …
       alen=<n> bw=<n> ac=<n> aac=<n> sp=<c,c|-> spk=<key+key|-> sz=<n,n|->`
 
-A key token is `<name>/<maxChunks>`; `sz` are the byte lengths of the actions, `alen` the length
+A key token is `<name>/<maxChunks>`; a token starting with `@` is a key derived from the action id
+(the real key is name ++ actionID): the model key is the action id followed by the token.
+`sz` are the byte lengths of the actions, `alen` the length
 of the real auth bytes, `bw`/`ac` = `authFactory.MaxUnits()`, `aac` = `auth.ComputeUnits`.
 Output: `est=<b,c,r,a,w|err> units=<b,c,r,a,w|err>`.
 -/
@@ -35,7 +37,12 @@ def chunksOf (k : Bytes) : Nat :=
 def env : Env Act Auth :=
   { pa := { parse := fun _ => none, bytes := fun a => List.replicate a.size 0 }
     pu := { parse := fun _ => none, bytes := fun a => List.replicate a.len 0 }
-    compute := (·.compute), keys := (·.keys), chunks := chunksOf
+    compute := (·.compute)
+    keys := fun a id => a.keys.map fun k => if k.head? == some (UInt8.ofNat 64) then id ++ k else k
+    -- CreateActionID(txID, i): distinct per (txID, i); ids.Empty = zeros 32; ToID(tx) ≠ ids.Empty
+    actionID := fun tx i => strBytes (if tx == emptyID then "E" else "T") ++ strBytes s!"#{i}~"
+    txID := fun _ => strBytes "T"
+    chunks := chunksOf
     authCompute := (·.compute), sponsorKeys := (·.sponsorKeys) }
 
 def natsCSV (s : String) : Option (List Nat) :=
